@@ -34,7 +34,7 @@ def normalize_index(index, ndim):
         return tuple([np.newaxis] + [slice(None) for i in range(ndim)])
     if index is Ellipsis:
         return tuple(slice(None) for i in range(ndim))
-    if isinstance(index, (slice, int)):
+    if isinstance(index, (slice, int, np.integer)):
         return tuple([index] + [slice(None) for i in range(ndim - 1)])
     if isinstance(index, np.ndarray) and index.dtype == bool and index.all():
         # The numpy test routines seem to like passing in ND arrays that are
@@ -61,7 +61,7 @@ def normalize_index(index, ndim):
 
     norm_index = []
     for i in index:
-        if isinstance(i, (slice, int, list)):
+        if isinstance(i, (slice, int, np.integer, list)):
             norm_index.append(i)
         elif i is np.newaxis:
             norm_index.append(np.newaxis)
@@ -147,7 +147,7 @@ class PipelineData(np.ndarray):
         elif len(s) == 3:
             epoch_slice, channel_slice, time_slice = s
 
-        if isinstance(time_slice, int):
+        if isinstance(time_slice, (int, np.integer)):
             # Before we implement this, we need to have some way of tracking
             # dimensionality (e.g., if ndim=1, what dimension has been
             # preserved, time, channel, etc.?).
@@ -177,7 +177,7 @@ class PipelineData(np.ndarray):
                 # mask) so that the labels match the rows that were selected.
                 i = np.arange(len(obj.channel))[channel_slice]
                 obj.channel = [obj.channel[j] for j in i]
-            elif isinstance(channel_slice, (int, slice)):
+            elif isinstance(channel_slice, (int, np.integer, slice)):
                 obj.channel = obj.channel[channel_slice]
             else:
                 raise ValueError(f'Unrecognized channel slice {channel_slice}')
@@ -190,7 +190,7 @@ class PipelineData(np.ndarray):
         elif epoch_slice is not skip:
             if isinstance(epoch_slice, list):
                 obj.metadata = np.array(obj.metadata)[epoch_slice].tolist()
-            elif isinstance(epoch_slice, (int, slice)):
+            elif isinstance(epoch_slice, (int, np.integer, slice)):
                 obj.metadata = obj.metadata[epoch_slice]
             else:
                 raise ValueError(f'Unrecognized epoch slice {epoch_slice}')
